@@ -1,19 +1,21 @@
 #!/bin/bash
 # selftest.sh [ids...]: must-fail corpus. Applies each kept seeded change to a scratch copy of /repo under
 # /tmp (never to /repo), runs the quick check of its property on the copy and expects exit 1 with a
-# VIOLATION line. Prints one line per change; exit 1 if any change is missed.
-set -u
-ids="$@"; [ -z "$ids" ] && ids=$(ls /verif/seeded | grep -v "^_")
-bad=0
-for id in $ids; do
+# VIOLATION line. Four at a time. Prints one line per change; exit 1 if any change is missed.
+ids="$@"; [ -z "$ids" ] && ids=$(ls /verif/seeded | grep "^C")
+one() {
+  id=$1
   p=$(jq -r .property /verif/seeded/$id/meta.json)
   WT=$(mktemp -d /tmp/selftest_XXXXXX)
   cp -r /repo/. $WT/
   ( cd $WT && git checkout -q -- . && git clean -fdq )
-  if ! git -C $WT apply /verif/seeded/$id/patch.diff; then echo "$id APPLY-FAILED"; bad=1; rm -rf $WT; continue; fi
-  out=$(timeout 900 /verif/bin/govc check --property $p --tier quick --no-evidence --repo $WT 2>&1); rc=$?
+  if ! git -C $WT apply /verif/seeded/$id/patch.diff 2>/dev/null; then echo "$id APPLY-FAILED"; rm -rf $WT; return; fi
+  out=$(GOVC_REPLAY_DIR=$WT/.replays timeout 900 /verif/bin/govc check --property $p --tier quick --no-evidence --repo $WT 2>&1); rc=$?
   rm -rf $WT
   n=$(echo "$out" | grep -c "^VIOLATION property=$p ")
-  if [ $rc -eq 1 ] && [ $n -ge 1 ]; then echo "$id $p caught ($n violations)"; else echo "$id $p MISSED (exit $rc)"; bad=1; fi
-done
-exit $bad
+  if [ $rc -eq 1 ] && [ $n -ge 1 ]; then echo "$id $p caught ($n violations)"; else echo "$id $p MISSED (exit $rc)"; fi
+}
+export -f one
+echo $ids | tr ' ' '\n' | xargs -P 4 -I{} bash -c 'one {}' | sort | tee /verif/work/selftest.last
+if grep -q "MISSED\|APPLY-FAILED" /verif/work/selftest.last; then exit 1; fi
+exit 0
